@@ -28,6 +28,11 @@ var moreFns = []string{"all", "any", "count", "countfunc", "fill", "clear", "gro
 	"sortequal", "sortreverse", "orderedless", "sortslice", "slicestable", "sliceissorted", "setadd", "setremove", "setcontains",
 	"setfromslice", "min", "max"}
 
+// allocLimit mirrors Juniper.Model.Stdlib.allocLimit: a `make` / Grow of more elements than this is
+// modelled as the runtime's "len out of range" panic (the harness only asks for <= a few thousand or
+// >= 2^61 elements, where the real runtime agrees whatever the exact limit).
+const allocLimit = 1 << 44
+
 func mkSl(l []int, cp int) []int {
 	if cp < len(l) {
 		cp = len(l)
@@ -253,7 +258,7 @@ func monitorMore(c Case) (kind, what string, params P) {
 	case "remove":
 		// "removes n elements from s starting at index idx and returns the modified slice"
 		l, cp, idx, n := decList(a[0]), atoi(a[1]), atoi(a[2]), atoi(a[3])
-		if idx < 0 || n < 0 || idx+n > len(l) {
+		if idx < 0 || n < 0 || idx > len(l) || n > len(l)-idx { // (overflow-free form of idx+n > len)
 			return
 		}
 		s := mkSl(l, cp)
@@ -272,8 +277,8 @@ func monitorMore(c Case) (kind, what string, params P) {
 		// "grows s's capacity by reallocating, if necessary, to fit n more elements ... does not change the
 		// length of s. After Grow(s, n), the following n append()s to s will not need to reallocate."
 		l, cp, n := decList(a[0]), atoi(a[1]), atoi(a[2])
-		if n < 0 {
-			return
+		if n < 0 || n > allocLimit {
+			return // slices.Grow: "If n is negative or too large to allocate the memory, Grow panics."
 		}
 		s := mkSl(l, cp)
 		var r []int
